@@ -1,4 +1,4 @@
-//verif:native
+//verif:native-env
 
 package core
 
@@ -19,6 +19,7 @@ package core
 import (
 	"bytes"
 	"encoding/json"
+	"errors"
 	"unicode/utf8"
 
 	"github.com/martian-lang/martian/martian/syntax"
@@ -43,6 +44,26 @@ stage S(
     src comp     "bin",
 )
 `
+
+// encoding/json is used on this path for one thing only: peeling the
+// {"split": ...} wrapper of a mapped argument.  Reference decoder for exactly
+// that shape (the native replay uses the real encoding/json).
+//
+//verif:stub encoding/json.Unmarshal
+func c16Unmarshal(data []byte, v any) error {
+	if p, ok := v.(*struct {
+		Split json.RawMessage `json:"split"`
+	}); ok {
+		d := bytes.TrimSpace(data)
+		const pre = `{"split":`
+		if len(d) > len(pre)+1 && string(d[:len(pre)]) == pre && d[len(d)-1] == '}' {
+			p.Split = json.RawMessage(bytes.TrimSpace(d[len(pre) : len(d)-1]))
+			return nil
+		}
+		return errors.New("json: not a split wrapper")
+	}
+	panic("json model: unsupported Unmarshal target")
+}
 
 type c16Fixture struct {
 	callable syntax.Callable
@@ -99,9 +120,11 @@ func c16Strip(b []byte) []byte {
 	return out
 }
 
-// H_C16_invocationLoop(n, flagKind): flagKind 0/1/2 = false/true/null; with
+// H_C16_invocationLoop(n, flagKind, splitKind): splitKind 0/1/2 = no mapped
+// argument / m and arr mapped, listed in declaration order / listed reversed;
+// flagKind 0/1/2 = false/true/null; with
 // flagKind 1 the struct and map arguments arrive as Go maps instead of raw JSON.
-func H_C16_invocationLoop(n int, flagKind int) {
+func H_C16_invocationLoop(n int, flagKind int, splitKind int) {
 	fx := c16Callable()
 	s := verifString("s", n)
 	// invocation data is JSON: its strings are Unicode text (what an MRO
@@ -121,6 +144,17 @@ func H_C16_invocationLoop(n int, flagKind int) {
 		"sts":  c16Cat([]byte(`[{"a":`), sa, []byte(`,"b":`), sb, []byte(`}]`)),
 		"um":   c16Cat([]byte(`{"x":`), k, []byte(`}`)),
 	}
+	// mapped (split) arguments: none, listed in declaration order (m, arr), or
+	// listed the other way round
+	var splitargs []string
+	if splitKind != 0 {
+		args["m"] = c16Cat([]byte(`{"split":{"key":`), k, []byte(`}}`))
+		args["arr"] = c16Cat([]byte(`{"split":[`), e0, []byte(`,`), e1, []byte(`]}`))
+		splitargs = []string{"m", "arr"}
+		if splitKind == 2 {
+			splitargs = []string{"arr", "m"}
+		}
+	}
 	raw := map[string]json.RawMessage{}
 	for key, v := range args {
 		raw[key] = v.(json.RawMessage)
@@ -128,10 +162,12 @@ func H_C16_invocationLoop(n int, flagKind int) {
 	if flagKind == 1 {
 		// the same values handed over as already decoded maps, as API callers do
 		args["st"] = MarshalerMap{"a": json.RawMessage(a), "b": json.RawMessage(b)}
-		args["m"] = LazyArgumentMap{"key": json.RawMessage(k)}
+		if splitKind == 0 {
+			args["m"] = LazyArgumentMap{"key": json.RawMessage(k)}
+		}
 		args["um"] = LazyArgumentMap{"x": json.RawMessage(k)}
 	}
-	ast, err := BuildCallAst("S", args, nil, fx.callable, fx.lookup, nil)
+	ast, err := BuildCallAst("S", args, splitargs, fx.callable, fx.lookup, nil)
 	verifAssert(err == nil, "C16: well-formed invocation data converts to a call")
 	if err != nil {
 		return
@@ -144,8 +180,18 @@ func H_C16_invocationLoop(n int, flagKind int) {
 			m, ok := bind.Exp.(*syntax.MapExp)
 			verifAssert(ok && m.Kind == syntax.KindStruct, "C16: an object bound to a struct-typed parameter becomes a struct expression")
 		case "m", "um":
-			m, ok := bind.Exp.(*syntax.MapExp)
+			e := bind.Exp
+			if sp, ok := e.(*syntax.SplitExp); ok {
+				verifAssert(splitKind != 0 && bind.Id == "m", "C16: only mapped arguments become split expressions")
+				e = sp.Value
+			} else {
+				verifAssert(splitKind == 0 || bind.Id == "um", "C16: a mapped argument becomes a split expression")
+			}
+			m, ok := e.(*syntax.MapExp)
 			verifAssert(ok && m.Kind == syntax.KindMap, "C16: an object bound to a map-typed parameter stays a map expression")
+		case "arr":
+			_, isSplit := bind.Exp.(*syntax.SplitExp)
+			verifAssert(isSplit == (splitKind != 0), "C16: exactly the mapped arguments become split expressions, whatever order they are listed in")
 		case "sts":
 			arr, ok := bind.Exp.(*syntax.ArrayExp)
 			verifAssert(ok && len(arr.Value) == 1, "C16: an array stays an array")
@@ -171,7 +217,13 @@ func H_C16_invocationLoop(n int, flagKind int) {
 		return
 	}
 	verifCover("round trip done")
-	verifAssert(data.Call == "S" && len(data.SplitArgs) == 0, "C16: the call target survives")
+	verifAssert(data.Call == "S", "C16: the call target survives")
+	gotM, gotArr := false, false
+	for _, sa := range data.SplitArgs {
+		gotM = gotM || sa == "m"
+		gotArr = gotArr || sa == "arr"
+	}
+	verifAssert(gotM == (splitKind != 0) && gotArr == (splitKind != 0) && len(data.SplitArgs) == len(splitargs), "C16: the mapped (split) status of every argument survives the round trip")
 	for key, want := range raw {
 		got, ok := data.Args[key]
 		verifAssert(ok, "C16: every argument survives the round trip")
